@@ -387,7 +387,7 @@ def run(ctx):
             corpus.append([tuple(int(x) if x.lstrip("-").isdigit() else x for x in o) for o in json.load(open(os.path.join(cdir, f)))["ops"]])
     if corpus:
         batches.append(("corpus", corpus, 1))
-    depth = 4 if quick else 5
+    depth = 5 if quick else 6
     for d in range(1, depth + 1):
         batches.append((f"exhaustive-{d}", exhaustive(d, nh, ids), 1))
     nrand, rlen = (150, 120) if quick else (2500, 400)
